@@ -15,10 +15,18 @@
                iterator(ctx, v)                                  (WRead p v       : plain read)
        })
        if loaded { return stored }
+       completed := false
+       defer func() { if !completed {                         (a panic during generation, here or in a
+               err := recover()                                  nested request, arrives here)
+               m.Delete(t)                                    PDel
+               iterator = func(..) { panic(err) }             PWErr (plain write of [iterator])
+               wg.Done()                                      PDErr
+               panic(err) } }()                                  (the enclosing request cleans up next)
        iterator = getDefaultIteratorForType(t)                PGen (asks the cache for the element
                                                                     types, recursively; panics on
                                                                     unsupported kinds), then
                                                               PWrite (plain write of [iterator])
+       completed = true
        wg.Done()                                              PDone
        m.Store(t, iterator)                                   PStore (plain read by the writer itself)
        return iterator
@@ -66,7 +74,9 @@ Definition is_bad (tt : ttable) (t : ty) : bool :=
 
 (* A function value: a generated function (index into the heap of generated
    functions) or the placeholder closure of cell p. *)
-Inductive fn := FGen (g : nat) | FPh (p : nat).
+Inductive fn := FGen (g : nat) | FPh (p : nat) | FErr.
+(* [FErr] is the function the failure path assigns: it panics with the
+   generator's error.  It only ever lives in a cell's variable. *)
 
 (* The shape of a value as far as the caches are concerned: which of the
    functions captured at generation time are called on which sub-values
@@ -83,7 +93,7 @@ Record ph := mkPh { ph_ty : ty; ph_cnt : N; ph_var : option fn; ph_pub : bool }.
    captured for the element types. Immutable once created. *)
 Record clo := mkClo { clo_ty : ty; clo_kids : list fn }.
 
-Inductive pc := PLoad | PAdd | PLoS | PGen | PWrite | PDone | PStore.
+Inductive pc := PLoad | PAdd | PLoS | PGen | PWrite | PDone | PStore | PDel | PWErr | PDErr.
 
 (* One activation of GetIteratorForType. *)
 Record frame := mkFrame { f_ty : ty; f_ph : nat; f_pc : pc; f_todo : list ty; f_got : list fn }.
@@ -138,7 +148,13 @@ Fixpoint upd {A} (l : list A) (i : nat) (x : A) : list A :=
   | y :: r, S k => y :: upd r k x
   end.
 
-Definition is_ph (f : fn) : bool := match f with FPh _ => true | FGen _ => false end.
+Definition is_ph (f : fn) : bool := match f with FPh _ => true | _ => false end.
+
+Fixpoint remove_key (m : list (ty * fn)) (t : ty) : list (ty * fn) :=
+  match m with
+  | [] => []
+  | (t', f) :: r => if t' =? t then remove_key r t else (t', f) :: remove_key r t
+  end.
 
 Definition set_cnt (c : ph) (n : N) : ph := mkPh (ph_ty c) n (ph_var c) (ph_pub c).
 Definition set_var (c : ph) (f : fn) : ph := mkPh (ph_ty c) (ph_cnt c) (Some f) (ph_pub c).
@@ -174,7 +190,7 @@ Definition ret (th : thread) (rest : list frame) (f : fn) : thread :=
       end
   end.
 
-(* The current job ends in a (recovered) panic: its frames are abandoned as they are. *)
+(* The current job ends in a (recovered) panic. *)
 Definition panic (th : thread) : thread :=
   match th_cur th with
   | Some j => mkThread (th_jobs th) None (th_done th ++ [(j, RPanic)]) [] [] [] []
@@ -217,7 +233,7 @@ Definition tstep (tt : ttable) (m : list (ty * fn)) (phs : list ph) (heap : list
               end
           end
       | PGen =>
-          if is_bad tt t then same (panic th)
+          if is_bad tt t then same (with_stack th (at_pc PDel [] :: rest))   (* the generator panics: the deferred function runs *)
           else match f_todo fr with
                | c :: _ => same (with_stack th (mkFrame c 0 PLoad [] [] :: fr :: rest))
                | [] => same (with_stack th (at_pc PWrite [] :: rest))
@@ -244,6 +260,26 @@ Definition tstep (tt : ttable) (m : list (ty * fn)) (phs : list ph) (heap : list
               end
           | None => None
           end
+      | PDel => Some (with_stack th (at_pc PWErr [] :: rest), mkShared (remove_key m t) phs heap [])
+      | PWErr =>
+          match nth_error phs p with
+          | Some c => Some (with_stack th (at_pc PDErr [] :: rest),
+                            mkShared m (upd phs p (set_var c FErr)) heap [EWrite p])
+          | None => None
+          end
+      | PDErr =>
+          match nth_error phs p with
+          | Some c =>
+              (* Done, then the panic goes on: the enclosing request runs its deferred function,
+                 the outermost one lets the panic reach the caller's recover *)
+              Some (match rest with
+                    | parent :: rest' =>
+                        with_stack th (mkFrame (f_ty parent) (f_ph parent) PDel [] (f_got parent) :: rest')
+                    | [] => panic (with_stack th [])
+                    end,
+                    mkShared m (upd phs p (set_cnt c (N.pred (ph_cnt c)))) heap [EDone p])
+          | None => None
+          end
       end
   | [] =>
       match th_work th with
@@ -254,6 +290,7 @@ Definition tstep (tt : ttable) (m : list (ty * fn)) (phs : list ph) (heap : list
                                      (th_trace th ++ [clo_ty c]) (th_kinds th))
           | None => same (panic th)   (* unreachable *)
           end
+      | WCall FErr _ :: _ => same (panic th)   (* unreachable *)
       | WCall (FPh p) v :: w =>
           match nth_error phs p with
           | Some c => if ph_cnt c =? 0
@@ -265,8 +302,9 @@ Definition tstep (tt : ttable) (m : list (ty * fn)) (phs : list ph) (heap : list
           match nth_error phs p with
           | Some c =>
               match ph_var c with
+              | Some FErr => Some (panic th, mkShared m phs heap [ERead p])   (* the failed generation's error again *)
               | Some f => Some (with_work th (WCall f v :: w), mkShared m phs heap [ERead p])
-              | None => Some (panic th, mkShared m phs heap [ERead p])    (* nil function call *)
+              | None => Some (panic th, mkShared m phs heap [ERead p])    (* nil function call: unreachable *)
               end
           | None => None
           end
@@ -326,6 +364,7 @@ Definition next_access (th : thread) : option (nat * bool) :=
   match th_stack th with
   | fr :: _ => match f_pc fr with
                | PWrite => Some (f_ph fr, true)
+               | PWErr => Some (f_ph fr, true)
                | PStore => Some (f_ph fr, false)
                | _ => None
                end
@@ -458,6 +497,7 @@ Definition fn_eqb (a b : fn) : bool :=
   match a, b with
   | FGen g, FGen h => Nat.eqb g h
   | FPh p, FPh q => Nat.eqb p q
+  | FErr, FErr => true
   | _, _ => false
   end.
 Definition sel_eqb (a b : sel) : bool :=
@@ -478,7 +518,8 @@ Fixpoint val_eqb (a b : val) {struct a} : bool :=
   end.
 Definition pc_eqb (a b : pc) : bool :=
   match a, b with
-  | PLoad, PLoad | PAdd, PAdd | PLoS, PLoS | PGen, PGen | PWrite, PWrite | PDone, PDone | PStore, PStore => true
+  | PLoad, PLoad | PAdd, PAdd | PLoS, PLoS | PGen, PGen | PWrite, PWrite | PDone, PDone | PStore, PStore
+  | PDel, PDel | PWErr, PWErr | PDErr, PDErr => true
   | _, _ => false
   end.
 Definition frame_eqb (a b : frame) : bool :=
@@ -524,13 +565,14 @@ Definition state_eqb (a b : state) : bool :=
 Definition local_step (s : state) (th : thread) : bool :=
   match th_stack th with
   | fr :: _ => match f_pc fr with
-               | PGen | PAdd | PWrite => true
+               | PGen | PAdd | PWrite | PWErr => true
                | PLoad | PLoS => match lookup (st_map s) (f_ty fr) with Some (FGen _) => true | _ => false end
                | _ => false
                end
   | [] => match th_work th with
           | WGet _ _ :: _ => true
           | WCall (FGen _) _ :: _ => true
+          | WCall FErr _ :: _ => true
           | WCall (FPh p) _ :: _ => match nth_error (st_phs s) p with
                                     | Some c => (ph_cnt c =? 0) && ph_pub c
                                     | None => false
